@@ -11,6 +11,9 @@
 // a shadow map of live blocks with fill patterns.
 #include "common/hv.h"
 #include <map>
+#include <fcntl.h>
+#include <sys/wait.h>
+#include <climits>
 #include <set>
 #include <memory>
 #include <algorithm>
@@ -136,20 +139,124 @@ struct PoolCase
 };
 static std::unique_ptr<PoolCase> PC;
 
+// ---- one pool_head fed from several zones (pool_engage at arbitrary points of the history)
+struct MZone
+{
+    std::unique_ptr<exact_buf> buf; // exactly sized: ASan sees every access outside the zone
+    size_t n, e;
+};
+struct MPoolCase
+{
+    pool_head head;
+    std::vector<MZone> zones;
+    std::map<std::pair<size_t, size_t>, uint64_t> live; // (zone, offset) -> pattern seed
+    size_t cap = 0;                                     // sum of the cells of all zones engaged so far
+    uint64_t ctr = 1;
+
+    // which zone does the pointer point into?  (-1: none)
+    long zone_of(const void *q) const
+    {
+        for (size_t k = 0; k < zones.size(); k++)
+            if ((const uint8_t *)q >= zones[k].buf->p && (const uint8_t *)q < zones[k].buf->p + zones[k].n * zones[k].e) return (long)k;
+        return -1;
+    }
+    std::string name(const void *q) const
+    {
+        if (!q) return "null";
+        long k = zone_of(q);
+        if (k < 0) return "outside";
+        return s(k) + ":" + s((const uint8_t *)q - zones[(size_t)k].buf->p);
+    }
+    void check_patterns(out &o)
+    {
+        for (auto &kv : live)
+        {
+            const MZone &z = zones[kv.first.first];
+            for (size_t i = 0; i < z.e; i++)
+                if (z.buf->p[kv.first.second + i] != pat(kv.second, i))
+                {
+                    o.fail("contents of live cell " + s(kv.first.first) + ":" + s(kv.first.second) + " changed at byte " + s(i));
+                    return;
+                }
+        }
+    }
+    void check_new(void *q, out &o)
+    {
+        if (q == nullptr)
+        {
+            if (live.size() != cap) o.fail("null with " + s(live.size()) + " of " + s(cap) + " cells live (capacity = sum of the zones)");
+            return;
+        }
+        if (live.size() >= cap) o.fail("non-null although all " + s(cap) + " cells are live");
+        long k = zone_of(q);
+        if (k < 0)
+        {
+            o.fail("cell outside every engaged zone");
+            return;
+        }
+        const MZone &z = zones[(size_t)k];
+        size_t off = (uint8_t *)q - z.buf->p;
+        if (off % z.e) o.fail("cell offset " + s(off) + " not a multiple of the zone's elemsz");
+        if (off + z.e > z.n * z.e) o.fail("cell reaches behind its zone");
+        if ((uintptr_t)q % alignof(void *)) o.fail("cell misaligned");
+        for (auto &kv : live)
+            if (kv.first.first == (size_t)k && off < kv.first.second + z.e && kv.first.second < off + z.e)
+                o.fail("cell " + name(q) + " overlaps live cell " + s(k) + ":" + s(kv.first.second));
+        uint64_t sd = ctr++;
+        live[{(size_t)k, off}] = sd;
+        for (size_t i = 0; i < z.e; i++) z.buf->p[off + i] = pat(sd, i);
+    }
+    // the free list as the code links it: every entry is a cell of a zone, not live, no entry twice,
+    // and together with the live cells they are ALL cells of all zones (nothing lost, nothing invented)
+    void check_freelist(out &o)
+    {
+        std::set<std::pair<size_t, size_t>> seen;
+        size_t steps = 0;
+        for (slist_head *it = head.free_blocks.next; it != &head.free_blocks; it = it->next)
+        {
+            if (++steps > cap + 1)
+            {
+                o.fail("free list longer than the capacity (cyclic?)");
+                return;
+            }
+            long k = zone_of(it);
+            if (k < 0)
+            {
+                o.fail("free list entry outside every zone");
+                return;
+            }
+            size_t off = (uint8_t *)it - zones[(size_t)k].buf->p;
+            if (off % zones[(size_t)k].e) o.fail("free list entry not on a cell boundary");
+            if (live.count({(size_t)k, off})) o.fail("live cell " + s(k) + ":" + s(off) + " is on the free list");
+            if (!seen.insert({(size_t)k, off}).second) o.fail("cell twice on the free list");
+        }
+        if (seen.size() + live.size() != cap)
+            o.fail("free cells " + s(seen.size()) + " + live cells " + s(live.size()) + " != capacity " + s(cap) + " (cells lost)");
+    }
+};
+static std::unique_ptr<MPoolCase> MC;
+
 // ---- static_object_pool<T, Cap>
 static std::set<const void *> sop_objs;
 static std::string sop_err;
+static long sop_ctor_runs = 0, sop_dtor_runs = 0;
+static const void *sop_last_ctor = nullptr, *sop_last_dtor = nullptr;
 template <size_t SZ, size_t AL> struct alignas(AL) Obj
 {
     unsigned char b[SZ];
     Obj()
     {
         if (!sop_objs.insert(this).second) sop_err = "constructed over a live object";
+        sop_ctor_runs++;
+        sop_last_ctor = this;
         for (size_t i = 0; i < SZ; i++) b[i] = pat((uintptr_t)this, i);
     }
     ~Obj()
     {
         if (!sop_objs.erase(this)) sop_err = "destroyed a dead object";
+        else if (!intact()) sop_err = "object contents changed before its destructor ran";
+        sop_dtor_runs++;
+        sop_last_dtor = this;
     }
     bool intact() const
     {
@@ -170,6 +277,7 @@ struct SopBase
     virtual size_t szT() = 0;
     virtual size_t alT() = 0;
     virtual bool intact(void *) = 0;
+    virtual void engage(void *zone, size_t ncells) = 0; // through freelist()
 };
 template <size_t SZ, size_t AL, size_t CAP> struct SopImpl : SopBase
 {
@@ -188,6 +296,7 @@ template <size_t SZ, size_t AL, size_t CAP> struct SopImpl : SopBase
     size_t szT() { return SZ; }
     size_t alT() { return AL; }
     bool intact(void *q) { return ((T *)q)->intact(); }
+    void engage(void *zone, size_t ncells) { pool_engage(p->freelist(), zone, ncells * sizeof(typename P::storage_type), sizeof(typename P::storage_type)); }
 };
 struct SopKind
 {
@@ -203,7 +312,22 @@ static const std::vector<SopKind> sop_kinds = {
 struct SopCase
 {
     std::unique_ptr<SopBase> p;
-    std::set<size_t> live;
+    std::set<std::pair<size_t, size_t>> live; // (zone, offset); zone 0 = the pool's own storage
+    std::vector<std::pair<char *, size_t>> extra; // zones engaged through freelist(): base, cells
+    size_t cap = 0;
+    ~SopCase()
+    {
+        p.reset();
+        for (auto &z : extra) free(z.first);
+    }
+    char *zbase(size_t k) { return k == 0 ? p->base() : extra[k - 1].first; }
+    size_t zcells(size_t k) { return k == 0 ? p->cap() : extra[k - 1].second; }
+    long zone_of(const void *q)
+    {
+        for (size_t k = 0; k <= extra.size(); k++)
+            if ((const char *)q >= zbase(k) && (const char *)q < zbase(k) + zcells(k) * p->storage()) return (long)k;
+        return -1;
+    }
 };
 static std::unique_ptr<SopCase> SC;
 
@@ -227,6 +351,8 @@ struct HeapCase
 static std::unique_ptr<HeapCase> HC;
 
 static size_t &hdr_of(char *p) { return ((size_t *)p)[-1]; }
+// a request that cannot be rounded up to a multiple of __WORDSIZE in a size_t: no block can satisfy it
+static bool unrepresentable(size_t n) { return n % __WORDSIZE && n > SIZE_MAX - (__WORDSIZE - n % __WORDSIZE); }
 
 static void heap_fill(Blk &b)
 {
@@ -401,11 +527,93 @@ static void run_op(const std::vector<std::string> &w, const std::string &, out &
     if (op == "reset")
     {
         PC.reset();
+        MC.reset();
         SC.reset();
         HC.reset();
         sop_objs.clear();
         sop_err.clear();
+        sop_ctor_runs = sop_dtor_runs = 0;
         const std::string &k = w[1];
+        if (k == "poolx")
+        {
+            // igris::pool(zone, size, elsize) with an element size / zone size it must refuse (asserts), run in a child
+            // process: the zone is exactly sized, so an accepted bad request is a memory error there
+            size_t e = strtoul(w[2].c_str(), 0, 10), size = strtoul(w[3].c_str(), 0, 10);
+            int pfd[2];
+            if (pipe(pfd) != 0)
+            {
+                o.result = "bad-op";
+                return;
+            }
+            fflush(stdout);
+            pid_t pid = fork();
+            if (pid == 0)
+            {
+                dup2(pfd[1], 2);
+                close(pfd[0]);
+                // the child must not touch the parent's stdin / stdout (exit() would seek the shared input back)
+                int nul = open("/dev/null", O_RDWR);
+                dup2(nul, 0);
+                dup2(nul, 1);
+                exact_buf z(size);
+                igris::pool ip(z.p, size, e); // init(): assert on the element size, then pool_engage (assert on the zone size)
+                fprintf(stderr, "engaged %zu\n", ip.avail());
+                _exit(0);
+            }
+            close(pfd[1]);
+            std::string err;
+            char buf[512];
+            ssize_t got;
+            while ((got = read(pfd[0], buf, sizeof buf)) > 0) err.append(buf, (size_t)got);
+            close(pfd[0]);
+            int status = 0;
+            waitpid(pid, &status, 0);
+            bool asserted = err.find("Assertion") != std::string::npos;
+            bool clean = WIFEXITED(status) && WEXITSTATUS(status) == 0;
+            if (asserted) o.result = "assert";
+            else if (clean) o.result = err.substr(0, err.find('\n'));
+            else o.result = "memory-error";
+            // independent of the model: a cell must hold the 8-byte link, and the zone must be whole cells
+            bool must_refuse = e < sizeof(struct slist_head) || size % e != 0;
+            if (must_refuse && !asserted)
+            {
+                // one line of the child's report: the sanitizer's ERROR / runtime error line
+                std::string why = "engaged";
+                if (!clean)
+                {
+                    size_t at = err.find("ERROR: ");
+                    if (at == std::string::npos) at = err.find("runtime error");
+                    if (at == std::string::npos) at = 0;
+                    why = "memory error: " + err.substr(at, 90);
+                    for (char &ch : why)
+                        if (ch == '\n' || ch == '\t' || ch == '\r') ch = ' ';
+                }
+                o.fail("igris::pool(zone, size " + s(size) + ", elsize " + s(e) + ") was not refused: " + why);
+            }
+            if (!must_refuse && !clean) o.fail("pool_engage of a valid zone failed");
+            o.tag(must_refuse ? "engage-refused" : "engage-child");
+            return;
+        }
+        if (k == "mpool")
+        {
+            MC.reset(new MPoolCase());
+            pool_init(&MC->head);
+            o.result = "ok " + s(pool_avail(&MC->head));
+            if (pool_alloc(&MC->head) != nullptr) o.fail("pool without a zone hands out a cell");
+            return;
+        }
+        if (k == "ipool0")
+        {
+            // igris::pool p;  -- default constructed, never init()-ed: a pool of capacity 0
+            PC.reset(new PoolCase());
+            PC->e = 8;
+            PC->cap = 0;
+            PC->zone.reset(new exact_buf(0));
+            PC->is_ip = true;
+            o.result = su(PC->ip.room()) + " " + su(PC->ip.avail());
+            o.tag("default-constructed");
+            return;
+        }
         if (k == "pool" || k == "ipool")
         {
             PC.reset(new PoolCase());
@@ -415,7 +623,9 @@ static void run_op(const std::vector<std::string> &w, const std::string &, out &
             PC->is_ip = k == "ipool";
             if (PC->is_ip)
             {
-                PC->ip.init(PC->zone->p, PC->e * PC->cap, PC->e);
+                if (PC->cap % 2) new (&PC->ip) igris::pool(PC->zone->p, PC->e * PC->cap, PC->e); // pool(zone, size, elsize)
+                else PC->ip.init(PC->zone->p, PC->e * PC->cap, PC->e);
+                if (PC->ip.element_size() != PC->e) o.fail("element_size()");
                 o.result = su(PC->ip.size()) + " " + su(PC->ip.room()) + " " + su(PC->ip.avail());
                 if (PC->ip.size() != PC->cap || PC->ip.room() != PC->cap || PC->ip.avail() != PC->cap) o.fail("fresh pool does not report its capacity");
             }
@@ -444,6 +654,7 @@ static void run_op(const std::vector<std::string> &w, const std::string &, out &
                 o.result = "bad-op";
                 return;
             }
+            SC->cap = cap;
             o.result = s(SC->p->storage()) + " " + s(SC->p->avail());
             if (SC->p->avail() != cap) o.fail("fresh object pool: avail != Capacity");
             if ((uintptr_t)SC->p->base() % std::max(al, (size_t)8)) o.fail("storage misaligned for T");
@@ -479,6 +690,54 @@ static void run_op(const std::vector<std::string> &w, const std::string &, out &
             return;
         }
         o.result = "bad-op";
+        return;
+    }
+    // ------------------------------------------------ pool fed from several zones
+    if (MC)
+    {
+        if (op == "z")
+        {
+            size_t n = strtoul(w[1].c_str(), 0, 10), e = strtoul(w[2].c_str(), 0, 10);
+            size_t before = pool_avail(&MC->head);
+            MC->zones.push_back(MZone{std::unique_ptr<exact_buf>(new exact_buf(n * e)), n, e});
+            pool_engage(&MC->head, MC->zones.back().buf->p, n * e, e);
+            MC->cap += n;
+            o.result = s(pool_avail(&MC->head));
+            if (pool_avail(&MC->head) != before + n) o.fail("pool_engage of " + s(n) + " cells: avail " + s(before) + " -> " + s(pool_avail(&MC->head)));
+            o.tag(before ? "engage-onto-nonempty-list" : MC->zones.size() > 1 ? "engage-further-zone" : "engage-first-zone");
+            if (n == 0) o.tag("engage-empty-zone");
+        }
+        else if (op == "a")
+        {
+            void *q = pool_alloc(&MC->head);
+            o.result = MC->name(q) + " " + s(pool_avail(&MC->head));
+            MC->check_new(q, o);
+            o.tag(q ? (MC->zones.size() > 1 ? "alloc-multizone" : "alloc") : "alloc-null");
+        }
+        else if (op == "f")
+        {
+            size_t k = strtoul(w[1].c_str(), 0, 10), off = strtoul(w[2].c_str(), 0, 10);
+            MC->live.erase({k, off});
+            pool_free(&MC->head, MC->zones[k].buf->p + off);
+            o.result = s(pool_avail(&MC->head));
+            o.tag("free");
+        }
+        else if (op == "in")
+        {
+            size_t k = strtoul(w[1].c_str(), 0, 10), off = strtoul(w[2].c_str(), 0, 10);
+            int r = pool_in_freelist(&MC->head, MC->zones[k].buf->p + off);
+            o.result = r ? "1" : "0";
+            if ((r != 0) == (MC->live.count({k, off}) != 0)) o.fail("pool_in_freelist disagrees with the shadow map");
+        }
+        else
+        {
+            o.result = "bad-op";
+            return;
+        }
+        MC->check_patterns(o);
+        MC->check_freelist(o);
+        if (pool_avail(&MC->head) != MC->cap - MC->live.size())
+            o.fail("avail " + s(pool_avail(&MC->head)) + " != capacity - live = " + s(MC->cap) + " - " + s(MC->live.size()));
         return;
     }
     // ------------------------------------------------ pool ops
@@ -546,6 +805,11 @@ static void run_op(const std::vector<std::string> &w, const std::string &, out &
             bool ref = i >= 0 && (size_t)i < PC->cap && PC->live.count((size_t)i * PC->e);
             if (r != ref) o.fail("cell_is_allocated(" + s(i) + ") disagrees with the shadow map");
         }
+        else if (op == "sz")
+        {
+            o.result = su(ip.size()) + " " + su(ip.element_size());
+            if (ip.size() != PC->cap) o.fail("size() " + su(ip.size()) + " != capacity " + s(PC->cap));
+        }
         else if (op == "it")
         {
             o.result = "it:";
@@ -572,35 +836,60 @@ static void run_op(const std::vector<std::string> &w, const std::string &, out &
     if (SC)
     {
         SopBase &p = *SC->p;
+        long c0 = sop_ctor_runs, d0 = sop_dtor_runs;
         if (op == "c")
         {
             void *q = p.create();
             if (q)
             {
-                size_t off = (char *)q - p.base();
-                if ((char *)q < p.base() || off + p.storage() > p.cap() * p.storage()) o.fail("object outside the storage");
+                long k = SC->zone_of(q);
+                size_t off = k < 0 ? 0 : (size_t)((char *)q - SC->zbase((size_t)k));
+                if (k < 0) o.fail("object outside the storage and the engaged zones");
                 else if (off % p.storage()) o.fail("object not on a cell boundary");
+                else if (off + p.storage() > SC->zcells((size_t)k) * p.storage()) o.fail("object reaches behind its zone");
                 if ((uintptr_t)q % p.alT()) o.fail("object misaligned for T");
-                if (SC->live.count(off)) o.fail("cell handed out twice");
-                if (SC->live.size() >= p.cap()) o.fail("non-null although Capacity objects are live");
-                SC->live.insert(off);
-                o.result = s(off);
-                o.tag("create");
+                if (k >= 0 && SC->live.count({(size_t)k, off})) o.fail("cell handed out twice");
+                if (SC->live.size() >= SC->cap) o.fail("non-null although Capacity objects are live");
+                if (sop_ctor_runs != c0 + 1 || sop_last_ctor != q) o.fail("create: the constructor did not run exactly once on the returned cell");
+                if (k >= 0) SC->live.insert({(size_t)k, off});
+                o.result = k <= 0 ? s(off) : s(k) + ":" + s(off);
+                o.tag(k > 0 ? "create-in-extra-zone" : "create");
             }
             else
             {
-                if (SC->live.size() != p.cap()) o.fail("null with free cells left");
+                if (SC->live.size() != SC->cap) o.fail("null with free cells left");
+                if (sop_ctor_runs != c0) o.fail("create returned null but a constructor ran");
                 o.result = "null";
                 o.tag("create-null");
             }
+            if (sop_dtor_runs != d0) o.fail("create ran a destructor");
         }
         else if (op == "d")
         {
-            size_t off = strtoul(w[1].c_str(), 0, 10);
-            SC->live.erase(off);
-            p.destroy(p.base() + off);
+            size_t k = w.size() > 2 ? strtoul(w[1].c_str(), 0, 10) : 0;
+            size_t off = strtoul(w[w.size() > 2 ? 2 : 1].c_str(), 0, 10);
+            SC->live.erase({k, off});
+            void *q = SC->zbase(k) + off;
+            p.destroy(q);
+            if (sop_dtor_runs != d0 + 1 || sop_last_dtor != q) o.fail("destroy: the destructor did not run exactly once on the object");
+            if (sop_ctor_runs != c0) o.fail("destroy ran a constructor");
             o.result = "";
             o.tag("destroy");
+        }
+        else if (op == "x")
+        {
+            size_t n = strtoul(w[1].c_str(), 0, 10);
+            size_t al = std::max(p.alT(), (size_t)8);
+            char *z = (char *)aligned_alloc(al, n ? n * p.storage() : al); // exactly sized (ASan)
+            SC->extra.push_back({z, n});
+            size_t before = p.avail();
+            p.engage(z, n);
+            SC->cap += n;
+            o.result = s(p.avail());
+            if (p.avail() != before + n) o.fail("pool_engage(freelist(), " + s(n) + " cells): avail " + s(before) + " -> " + s(p.avail()));
+            if (sop_ctor_runs != c0 || sop_dtor_runs != d0) o.fail("engage ran a constructor / destructor");
+            o.tag(before ? "sop-engage-onto-nonempty-list" : "sop-engage");
+            goto sop_checks;
         }
         else
         {
@@ -608,12 +897,14 @@ static void run_op(const std::vector<std::string> &w, const std::string &, out &
             return;
         }
         if (!o.result.empty()) o.result += " ";
-        o.result += s(p.avail()) + " " + s(sop_objs.size());
+        o.result += s(p.avail()) + " " + s(sop_objs.size()) + " " + s(sop_ctor_runs) + " " + s(sop_dtor_runs);
+    sop_checks:
         if (!sop_err.empty()) o.fail(sop_err);
         if (sop_objs.size() != SC->live.size()) o.fail("constructed objects != live cells");
-        for (size_t off : SC->live)
-            if (!p.intact(p.base() + off)) o.fail("contents of live object at " + s(off) + " changed");
-        if (p.avail() != p.cap() - SC->live.size()) o.fail("avail != Capacity - live");
+        if (sop_ctor_runs - sop_dtor_runs != (long)SC->live.size()) o.fail("constructor runs - destructor runs != live objects");
+        for (auto &c : SC->live)
+            if (!p.intact(SC->zbase(c.first) + c.second)) o.fail("contents of live object at " + s(c.first) + ":" + s(c.second) + " changed");
+        if (p.avail() != SC->cap - SC->live.size()) o.fail("avail != Capacity - live");
         return;
     }
     if (HC)
@@ -633,6 +924,11 @@ static void run_op(const std::vector<std::string> &w, const std::string &, out &
             if (p)
             {
                 Blk b{p, n, 0, hdr_of(p)};
+                if (hdr_of(p) < n)
+                {
+                    o.fail("usable size " + su(hdr_of(p)) + " < request " + su(n));
+                    b.n = hdr_of(p); // keep the shadow map usable
+                }
                 heap_fill(b);
                 HC->live[slot] = b;
                 ret = s(p - HC->start);
@@ -640,9 +936,10 @@ static void run_op(const std::vector<std::string> &w, const std::string &, out &
             else
             {
                 ret = "null";
-                if (!HC->lim) o.fail("malloc returned NULL without a heap limit");
+                if (!HC->lim && !unrepresentable(n)) o.fail("malloc returned NULL without a heap limit");
                 o.tag("malloc-null");
             }
+            if (unrepresentable(n)) o.tag("request-rounding-wraps");
             if (p)
             {
                 size_t fl_after = 0;
@@ -696,6 +993,11 @@ static void run_op(const std::vector<std::string> &w, const std::string &, out &
                 if (p)
                 {
                     Blk b{p, n, 0, hdr_of(p)};
+                    if (hdr_of(p) < n)
+                    {
+                        o.fail("usable size " + su(hdr_of(p)) + " < request " + su(n));
+                        b.n = hdr_of(p);
+                    }
                     heap_fill(b);
                     HC->live[slot] = b;
                     ret = s(p - HC->start);
@@ -703,8 +1005,9 @@ static void run_op(const std::vector<std::string> &w, const std::string &, out &
                 else
                 {
                     ret = "null";
-                    if (!HC->lim) o.fail("realloc(NULL, n) returned NULL without a heap limit");
+                    if (!HC->lim && !unrepresentable(n)) o.fail("realloc(NULL, n) returned NULL without a heap limit");
                 }
+                if (unrepresentable(n)) o.tag("request-rounding-wraps");
             }
             else
             {
@@ -723,6 +1026,11 @@ static void run_op(const std::vector<std::string> &w, const std::string &, out &
                     std::string why;
                     if (!heap_intact(old, keep, p, why)) o.fail("realloc lost the common prefix at " + why);
                     Blk b{p, n, 0, hdr_of(p)};
+                    if (hdr_of(p) < n)
+                    {
+                        o.fail("usable size " + su(hdr_of(p)) + " < request " + su(n));
+                        b.n = hdr_of(p);
+                    }
                     heap_fill(b);
                     HC->live[slot] = b;
                     ret = s(p - HC->start);
@@ -735,7 +1043,8 @@ static void run_op(const std::vector<std::string> &w, const std::string &, out &
                 else
                 {
                     ret = "null";
-                    if (!HC->lim) o.fail("realloc returned NULL without a heap limit");
+                    if (!HC->lim && !unrepresentable(n)) o.fail("realloc returned NULL without a heap limit");
+                    if (unrepresentable(n)) o.tag("request-rounding-wraps");
                     // the old block must still be there, untouched
                     std::string why;
                     if (!heap_intact(old, old.n, old.p, why)) o.fail("failed realloc damaged the old block at " + why);
@@ -901,6 +1210,209 @@ static void gen_heap_chains(rng &r, int ncases)
     }
 }
 
+// Targeted families (history shapes where an off-by-one in a size test, a wrong predecessor or a lost link shows):
+//  0 a free chunk of an exactly chosen size (k coalesced 8-byte chunks [+ a 64-byte one]: every multiple of 8),
+//    then requests that fit exactly / leave 8, 16, 24, 32 bytes (exact fit, whole chunk, smallest split)
+//  1 realloc growing into the upper neighbour: neighbour exactly fitting, 8 bytes short, 8/16/24/32 bytes spare
+//  2 3-way coalescing: adjacent blocks between guards freed in every order, several free chunks around
+//  3 lowering the break with a free chunk right below the top block and holes further down
+//  4 realloc shrinking next to a free chunk / at the top (the split-off tail merges up / lowers the break)
+//  5 best fit among several candidates (first candidate not the smallest), whole-chunk and split variants
+static void gen_heap_targeted(rng &r, int ncases)
+{
+    static const std::vector<size_t> grow = {1, 64, 65, 128, 129, 192, 193, 256};
+    for (int c = 0; c < ncases; c++)
+    {
+        int fam = c % 6;
+        size_t lim = c % 13 == 12 ? (size_t)r.range(700, 2600) : 0;
+        printf("reset heap %zu\n", lim);
+        HGen g(r, 90);
+        auto free_slot = [&](int slot) {
+            for (size_t i = 0; i < g.live.size(); i++)
+                if (g.live[i] == slot)
+                {
+                    g.f_at(i);
+                    return;
+                }
+        };
+        auto idx_of = [&](int slot) -> size_t {
+            for (size_t i = 0; i < g.live.size(); i++)
+                if (g.live[i] == slot) return i;
+            return 0;
+        };
+        auto shuffled = [&](std::vector<int> v) {
+            for (size_t i = v.size(); i > 1; i--) std::swap(v[i - 1], v[(size_t)r.below(i)]);
+            return v;
+        };
+        // k zero-size blocks (8-byte chunks) with an optional 64-byte block among them: returns their slots
+        auto small_run = [&](int k, bool with64) {
+            std::vector<int> sl;
+            int pos64 = with64 ? (int)r.below((uint64_t)k + 1) : -1;
+            for (int i = 0; i <= k; i++)
+            {
+                if (i == pos64)
+                {
+                    sl.push_back(g.next_slot);
+                    g.m(64);
+                }
+                if (i < k)
+                {
+                    sl.push_back(g.next_slot);
+                    g.m(r.chance(80) ? 0 : 8);
+                }
+            }
+            return sl;
+        };
+        switch (fam)
+        {
+        case 0:
+        {
+            if (r.chance(60)) g.m(pick_size(r));
+            std::vector<int> run = small_run((int)r.range(1, 10), r.chance(40));
+            if (r.chance(85)) g.m(pick_size(r)); // guard above (without it the run ends at the break)
+            for (int sl : shuffled(run)) free_slot(sl);
+            for (int i = 0, n = (int)r.range(1, 4); i < n; i++) g.m(r.pick(grow) - (r.chance(30) ? 1 : 0));
+            break;
+        }
+        case 1:
+        {
+            if (r.chance(50)) g.m(pick_size(r));
+            int a = g.next_slot;
+            g.m(r.chance(50) ? 0 : r.chance(50) ? 64 : 128);
+            std::vector<int> run = small_run((int)r.range(1, 12), r.chance(35));
+            bool guard = r.chance(80);
+            if (guard) g.m(pick_size(r));
+            if (r.chance(30)) g.m(0);
+            for (int sl : shuffled(run)) free_slot(sl);
+            g.rr(idx_of(a), r.pick(grow));
+            if (r.chance(60)) g.rr(idx_of(a), r.pick(grow));
+            if (r.chance(40)) g.m(r.pick(grow));
+            if (r.chance(40)) g.rr(idx_of(a), (size_t)r.below(70));
+            break;
+        }
+        case 2:
+        {
+            int groups = (int)r.range(1, 3);
+            std::vector<std::vector<int>> gs;
+            g.m(pick_size(r));
+            for (int k = 0; k < groups; k++)
+            {
+                std::vector<int> grp;
+                for (int i = 0, n = (int)r.range(3, 4); i < n; i++)
+                {
+                    grp.push_back(g.next_slot);
+                    g.m(pick_size(r));
+                }
+                gs.push_back(grp);
+                g.m(pick_size(r)); // guard between the groups
+            }
+            std::vector<int> all;
+            for (auto &grp : gs)
+                for (int sl : grp) all.push_back(sl);
+            for (int sl : shuffled(all)) free_slot(sl);
+            for (int i = 0; i < 2; i++) g.m(r.pick(grow));
+            break;
+        }
+        case 3:
+        {
+            int n = (int)r.range(4, 9);
+            std::vector<int> sl;
+            for (int i = 0; i < n; i++)
+            {
+                sl.push_back(g.next_slot);
+                g.m(r.chance(50) ? 0 : pick_size(r));
+            }
+            // holes further down, then the block below the top, then the top block
+            for (int i = 0; i + 3 < n; i++)
+                if (r.chance(45)) free_slot(sl[(size_t)i]);
+            if (r.chance(80)) free_slot(sl[(size_t)n - 2]);
+            free_slot(sl[(size_t)n - 1]);
+            if (r.chance(50)) free_slot(sl[(size_t)n - 3]); // now adjacent to the lowered break
+            g.m(r.pick(grow));
+            if (r.chance(50) && !g.live.empty()) g.f_at(g.live.size() - 1);
+            break;
+        }
+        case 4:
+        {
+            int a = g.next_slot;
+            g.m(r.pick(grow) + 64);
+            int b = g.next_slot;
+            g.m(r.chance(50) ? 0 : pick_size(r));
+            int cc = g.next_slot;
+            g.m(r.pick(grow) + 128);
+            if (r.chance(60)) free_slot(b);
+            g.rr(idx_of(a), r.chance(50) ? 0 : (size_t)r.below(70));  // tail merges with the chunk of b (or not)
+            g.rr(idx_of(cc), r.chance(50) ? 0 : (size_t)r.below(130)); // tail is the topmost chunk: break lowered
+            if (r.chance(50)) g.rr(idx_of(cc), r.pick(grow) + 200);    // and up again
+            if (r.chance(50)) g.rr(idx_of(a), r.pick(grow) + 64);      // grow back into its own tail
+            break;
+        }
+        default:
+        {
+            // several free chunks of different sizes in random address order, then requests that are
+            // served from the smallest fitting one (not the first candidate)
+            std::vector<int> holes;
+            int n = (int)r.range(2, 5);
+            for (int i = 0; i < n; i++)
+            {
+                size_t sz = r.pick(grow) + (size_t)r.below(3) * 64;
+                if (r.chance(40))
+                {
+                    std::vector<int> run = small_run((int)r.range(1, 4), true);
+                    for (int sl : run) holes.push_back(sl);
+                }
+                else
+                {
+                    holes.push_back(g.next_slot);
+                    g.m(sz);
+                }
+                g.m(r.chance(50) ? 0 : 64); // guard
+            }
+            for (int sl : shuffled(holes)) free_slot(sl);
+            for (int i = 0, k = (int)r.range(2, 5); i < k; i++) g.m(r.pick(grow));
+            break;
+        }
+        }
+        g.free_all((int)r.below(3));
+    }
+}
+
+// requests close to SIZE_MAX: rounding the request up to a multiple of __WORDSIZE wraps around
+static void gen_heap_huge(rng &r, int ncases)
+{
+    for (int c = 0; c < ncases; c++)
+    {
+        size_t lim = c % 2 ? (size_t)r.range(300, 3000) : 0;
+        printf("reset heap %zu\n", lim);
+        HGen g(r, 90);
+        auto huge = [&]() -> size_t {
+            unsigned k = (unsigned)r.below(4);
+            if (k == 0) return SIZE_MAX - (size_t)r.below(64);           // rounding wraps (or is exact: SIZE_MAX - 63)
+            if (k == 1) return SIZE_MAX - 63 - (size_t)r.below(130);     // around the first representable size
+            if (k == 2) return SIZE_MAX - (size_t)r.below(3);
+            return (SIZE_MAX / 2 + 1) + (size_t)r.range(-70, 70);
+        };
+        for (int i = 0, n = (int)r.range(0, 4); i < n; i++) g.m(pick_size(r));
+        if (g.live.size() > 1 && r.chance(50)) g.f_at((size_t)r.below(g.live.size() - 1));
+        for (int i = 0, n = (int)r.range(2, 6); i < n; i++)
+        {
+            unsigned k = (unsigned)r.below(3);
+            // when a heap end is configured every huge request must fail; without one only the unrepresentable ones do
+            size_t h = huge();
+            if (!lim) h = SIZE_MAX - (size_t)r.below(63);
+            // realloc computes ptr + len before anything else: keep that sum below 2^64 (the `cp < cp1` test of the
+            // code relies on pointer wrap-around, which UBSan reports; address wrap-around is outside the model)
+            size_t hr = r.chance(50) ? SIZE_MAX - (size_t)r.below(63) : lim ? (SIZE_MAX / 4 + 1) + (size_t)r.range(-70, 70) : h;
+            if (k == 0) printf("m %d %zu\n", 2000 + i, h); // slot stays empty when it fails
+            else if (k == 1 && !g.live.empty()) g.rr((size_t)r.below(g.live.size()), hr);
+            else printf("r %d %zu\n", 3000 + i, h); // realloc(NULL, huge)
+            if (r.chance(50)) g.m(pick_size(r));
+        }
+        for (int i = 0; i < 6; i++) printf("f %d\nf %d\n", 2000 + i, 3000 + i);
+        g.free_all((int)r.below(3));
+    }
+}
+
 // every history of exactly `depth` requests over the size alphabet `al`,
 // followed by the release of whatever is still live (ascending or descending)
 static long gen_heap_exhaustive(const std::vector<size_t> &al, int depth, bool with_realloc, long part, long nparts)
@@ -969,6 +1481,7 @@ static void gen_pool_case(rng &r, bool ip, size_t e, size_t cap)
     // offsets are live (the harness oracle does not rely on it)
     std::vector<size_t> freel, live;
     for (size_t i = 0; i < cap; i++) freel.push_back(i * e); // back() = list head
+    if (ip) puts("sz");
     auto alloc = [&]() {
         puts(A);
         if (!freel.empty())
@@ -1013,13 +1526,121 @@ static void gen_pool_case(rng &r, bool ip, size_t e, size_t cap)
     probes();
 }
 
-static void gen_sop_case(rng &r, const SopKind &k)
+// one pool_head, 1..4 zones of different sizes engaged at arbitrary points of the history
+// (shape 0: random; 1: all zones back to back, then exhaust; 2: exhaust, engage onto the drained pool,
+//  free some, engage onto a non-empty list; 3: alloc/free a little, then engage), interleaved with alloc/free.
+static void gen_mpool_case(rng &r, int shape, bool mixed_elemsz)
+{
+    puts("reset mpool");
+    size_t nz = (size_t)r.range(1, 4);
+    if (shape && nz < 2) nz = 2;
+    size_t e0 = 8 * (size_t)r.range(1, 8);
+    std::vector<std::pair<size_t, size_t>> zs; // cells, elemsz
+    for (size_t k = 0; k < nz; k++)
+    {
+        size_t n = r.chance(8) ? 0 : (size_t)r.range(1, r.chance(20) ? 33 : 9);
+        zs.push_back({n, mixed_elemsz ? 8 * (size_t)r.range(1, 8) : e0});
+    }
+    // the generator mirrors the LIFO discipline of the free list to know which cells are live
+    std::vector<std::pair<size_t, size_t>> freel, live;
+    size_t engaged = 0, cap = 0;
+    auto engage = [&]() {
+        if (engaged >= nz) return;
+        printf("z %zu %zu\n", zs[engaged].first, zs[engaged].second);
+        for (size_t i = 0; i < zs[engaged].first; i++) freel.push_back({engaged, i * zs[engaged].second});
+        cap += zs[engaged].first;
+        engaged++;
+    };
+    auto alloc = [&]() {
+        puts("a");
+        if (!freel.empty())
+        {
+            live.push_back(freel.back());
+            freel.pop_back();
+        }
+    };
+    auto rel = [&](size_t i) {
+        printf("f %zu %zu\n", live[i].first, live[i].second);
+        freel.push_back(live[i]);
+        live.erase(live.begin() + i);
+    };
+    auto probe = [&]() {
+        if (!engaged) return;
+        size_t k = (size_t)r.below(engaged);
+        if (zs[k].first) printf("in %zu %zu\n", k, (size_t)r.below(zs[k].first) * zs[k].second);
+    };
+    auto exhaust = [&]() {
+        size_t todo = freel.size() + 2;
+        for (size_t i = 0; i < todo; i++) alloc();
+    };
+    auto rel_some = [&]() {
+        int order = (int)r.below(3);
+        size_t keep = r.below(live.size() + 1);
+        while (live.size() > keep) rel(order == 0 ? live.size() - 1 : order == 1 ? 0 : (size_t)r.below(live.size()));
+    };
+    switch (shape)
+    {
+    case 1:
+        while (engaged < nz) engage();
+        exhaust();
+        probe();
+        rel_some();
+        break;
+    case 2:
+        engage();
+        exhaust();
+        engage(); // onto a drained pool
+        exhaust();
+        rel_some();
+        probe();
+        while (engaged < nz)
+        {
+            engage(); // onto a list that holds freed cells
+            if (r.chance(50)) alloc();
+        }
+        exhaust();
+        break;
+    case 3:
+        engage();
+        for (int i = 0, n = (int)r.range(1, 6); i < n; i++) alloc();
+        if (!live.empty()) rel((size_t)r.below(live.size()));
+        if (!live.empty() && r.chance(50)) rel((size_t)r.below(live.size()));
+        while (engaged < nz)
+        {
+            engage();
+            if (r.chance(60)) alloc();
+            if (!live.empty() && r.chance(60)) rel((size_t)r.below(live.size()));
+        }
+        exhaust();
+        break;
+    default:
+        if (r.chance(70)) engage();
+        break;
+    }
+    int n = (int)r.range(8, 50);
+    for (int i = 0; i < n; i++)
+    {
+        unsigned k = (unsigned)r.below(100);
+        if (engaged < nz && k < 12) engage();
+        else if (live.empty() || k < 60) alloc();
+        else rel((size_t)r.below(live.size()));
+        if (r.chance(15)) probe();
+    }
+    while (engaged < nz) engage();
+    // everything back, then exactly the capacity (the sum over all zones) must be handed out again
+    while (!live.empty()) rel((size_t)r.below(live.size()));
+    for (size_t i = 0; i < cap + 1; i++) alloc();
+    probe();
+}
+
+static void gen_sop_case(rng &r, const SopKind &k, bool extra_zones = false)
 {
     printf("reset sop %zu %zu %zu\n", k.sz, k.al, k.cap);
     size_t al = std::max(k.al, (size_t)8);
     size_t st = (std::max(k.sz, (size_t)8) + al - 1) / al * al;
-    std::vector<size_t> freel, live;
-    for (size_t i = 0; i < k.cap; i++) freel.push_back(i * st);
+    std::vector<std::pair<size_t, size_t>> freel, live; // (zone, offset)
+    for (size_t i = 0; i < k.cap; i++) freel.push_back({0, i * st});
+    size_t nzones = 1, cap = k.cap;
     auto create = [&]() {
         puts("c");
         if (!freel.empty())
@@ -1029,19 +1650,31 @@ static void gen_sop_case(rng &r, const SopKind &k)
         }
     };
     auto destroy = [&](size_t i) {
-        printf("d %zu\n", live[i]);
+        if (live[i].first) printf("d %zu %zu\n", live[i].first, live[i].second);
+        else printf("d %zu\n", live[i].second);
         freel.push_back(live[i]);
         live.erase(live.begin() + i);
     };
-    for (size_t i = 0; i < k.cap + 1; i++) create();
+    // a further zone handed to the pool through freelist()
+    auto engage = [&]() {
+        size_t n = r.chance(10) ? 0 : (size_t)r.range(1, 6);
+        printf("x %zu\n", n);
+        for (size_t i = 0; i < n; i++) freel.push_back({nzones, i * st});
+        nzones++;
+        cap += n;
+    };
+    if (extra_zones && r.chance(30)) engage(); // onto the full list of the fresh pool
+    for (size_t i = 0; i < cap + 1; i++) create();
     int n = (int)r.range(5, 60);
     for (int i = 0; i < n; i++)
     {
-        if (live.empty() || r.chance(50)) create();
+        if (extra_zones && nzones < 4 && r.chance(8)) engage();
+        else if (live.empty() || r.chance(50)) create();
         else destroy((size_t)r.below(live.size()));
     }
     while (!live.empty()) destroy((size_t)r.below(live.size()));
-    for (size_t i = 0; i < k.cap + 1; i++) create();
+    if (extra_zones && nzones < 4) engage();
+    for (size_t i = 0; i < cap + 1; i++) create();
     // destroy everything: the harness deletes the pool afterwards
     while (!live.empty()) destroy(live.size() - 1);
 }
@@ -1068,8 +1701,20 @@ static void gen(rng &r, const std::string &tier)
         for (size_t cap : {1, 3, 4, 7})
             if (th || (e / 4 + cap + g_seed) % 3 == 0)
                 gen_pool_case(r, (e / 4 + cap) % 2, e, cap);
+    // element sizes smaller than the link / zones that are not whole cells must be refused (asserts)
+    for (size_t e : {0, 1, 2, 4, 7})
+        for (size_t size : {8, 16, 28})
+            if (th || (e + size + g_seed) % 3 == 0) printf("reset poolx %zu %zu\n", e, size);
+    puts("reset poolx 16 40\nreset poolx 24 100\nreset poolx 8 64\nreset poolx 16 48\nreset poolx 9 27\nreset poolx 8 0");
+    // a default-constructed igris::pool (no zone): every query must answer "empty"
+    puts("reset ipool0\ng\nsz\nca 0\nit\np null\ng\nca -1\nsz");
     for (auto &k : sop_kinds)
         for (int i = 0; i < (th ? 4 : 1); i++) gen_sop_case(r, k);
+    // object pools extended by further zones through freelist()
+    for (auto &k : sop_kinds)
+        for (int i = 0; i < (th ? 4 : 1); i++) gen_sop_case(r, k, true);
+    // ---- one pool fed from 1..4 zones engaged at arbitrary points of the history
+    for (int i = 0; i < (th ? 1200 : 160); i++) gen_mpool_case(r, i % 4, i % 5 == 4);
     // ---- heap: exhaustive short histories over a 4-size alphabet
     // (rounded to 8, 64, 128, 256 bytes; merged neighbours give 80, 136, … so
     //  that exact fit, whole-chunk fit with an 8 byte rest and splits all occur)
@@ -1092,6 +1737,8 @@ static void gen(rng &r, const std::string &tier)
     // ---- heap: random histories, realloc chains
     gen_heap_random(r, th ? 400 : 60, th ? 300 : 150);
     gen_heap_chains(r, th ? 600 : 120);
+    gen_heap_targeted(r, th ? 3000 : 360);
+    gen_heap_huge(r, th ? 200 : 40);
     gen_heap_brim(r, th ? 360 : 72);
     // the release build (NDEBUG): histories with up to 400 live blocks
     gen_heap_random(r, th ? 40 : 8, th ? 1500 : 600, true);
